@@ -405,6 +405,44 @@ static void history(vf::Rng& r, const char* cfg) {
   }
 }
 
+// Parse with a pooling allocator that lives in a user-supplied buffer: the buffer is an exact-size heap block
+// (ASan red zones on both sides), handed over at an aligned or misaligned address; small documents whose
+// allocations end near the advertised capacity.
+static vf::Counter c_userbuf("c02:parses-on-user-buffer-pool"), c_userbuf_mis("c02:user-buffer-misaligned"), c_userbuf_spill("c02:user-buffer-exhausted(spilled-to-chunks)");
+static void userbuf_case(vf::Rng& r) {
+  size_t mis = r.below(3) == 0 ? 0 : r.range(1, 7);
+  size_t size = r.range(120, 700);
+  char* block = (char*)malloc(size + mis);
+  if (mis) c_userbuf_mis.add();
+  {
+    MemoryPoolAllocator<> alloc(block + mis, size, 4096);
+    int n = (int)r.range(1, 3);
+    for (int k = 0; k < n; k++) {
+      std::string t = gen_any_text(r, r.below(3) == 0);
+      if (t.size() > size) t.resize(r.range(0, size / 3));
+      if (r.below(4) == 0) t = "[1,  ";
+      vf::witness(t);
+      vf::eval();
+      c_userbuf.add();
+      ExactBuf b(t);
+      su::PoolDoc d(&alloc);
+      vf::note("Parse(user-buffer pool)");
+      d.Parse(b.p, b.n);
+      jm::RefResult ref = jm::ref_parse(t);
+      if (ref.f.cls == jm::Fault::String && ref.f.surrogate_only) continue;
+      if (!d.HasParseError() != ref.ok) vf::violation("userbuf-accept-mismatch", "pool on user buffer: text=" + vf::printable(t));
+      if (!d.HasParseError() && !too_deep(t)) {
+        JVal got;
+        std::string why;
+        if (!su::read_node(d, got, why) || !jm::equal(got, ref.v)) vf::violation("userbuf-value-mismatch", "pool on user buffer: " + jm::first_diff(got, ref.v));
+      }
+      if (alloc.Capacity() > size) c_userbuf_spill.add();
+      if (r.coin()) alloc.Clear();
+    }
+  }
+  free(block);
+}
+
 static void track_history(vf::Rng& r) {
   su::ledger_reset();
   history<su::TrackDoc>(r, "track");
@@ -631,6 +669,7 @@ int main(int argc, char** argv) {
     S.push_back({"reuse_histories_adaptive", 800, 50000, [](uint64_t, vf::Rng& r) { history<su::AdaptiveDoc>(r, "adaptive-pool"); }});
     S.push_back({"reuse_histories_simple", 1500, 100000, [](uint64_t, vf::Rng& r) { history<su::SimpleDoc>(r, "simple"); }});
     S.push_back({"reuse_histories_track", 1500, 100000, [](uint64_t, vf::Rng& r) { track_history(r); }});
+    S.push_back({"user_buffer_pool", 3000, 200000, [](uint64_t, vf::Rng& r) { userbuf_case(r); }});
   }
   // bundled test data (thorough): whole files and mutations of them
   if (vf::args().thorough || true) {
